@@ -144,6 +144,8 @@ EvalStep(x, e) ==
     [] e.k = "istr"  -> Term(x, MatchesAtCI(inp, P, e.s), Len(e.s))
     [] e.k = "range" -> Term(x, P < Len(inp) /\ InRange(inp[P + 1], e.lo, e.hi), 1)
     [] e.k = "cls"   -> Term(x, P < Len(inp) /\ InClass(e.n, inp[P + 1]), 1)
+    \* a Unicode property rule: a regex, records no failure; its extension over the characters that occur comes with the grammar
+    [] e.k = "cset"  -> TermQuiet(x, P < Len(inp) /\ (\E i \in 1..Len(e.cs) : e.cs[i] = inp[P + 1]), 1)
     [] e.k = "any"   -> TermQuiet(x, P < Len(inp), 1)
     [] e.k = "soi"   -> TermQuiet(x, P = 0, 0)
     \* EOI is a built-in (normal) rule: it always emits its pair; an enclosing atomic rule filters it
@@ -238,12 +240,14 @@ Step(x) ==
      ELSE ReturnStep(x, F)
 
 -----------------------------------------------------------------------------
-M0 == [ctl |-> <<EvalF(Ref("r"))>>, ret |-> "none",
-       pos |-> k, ustk |-> <<>>, rstk |-> <<>>, adepth |-> 0,
+MInit(rule, start) ==
+      [ctl |-> <<EvalF(Ref(rule))>>, ret |-> "none",
+       pos |-> start, ustk |-> <<>>, rstk |-> <<>>, adepth |-> 0,
        usnaps |-> <<>>, rsnaps |-> <<>>, asnaps |-> <<>>, poshist |-> <<>>,
        bufs |-> << <<>> >>, tr |-> <<>>,
        fp |-> -1, negd |-> 0, supp |-> FALSE,
        dstk |-> D!St(<<>>, <<>>, <<>>), tags |-> <<>>]
+M0 == MInit("r", k)
 
 Init == /\ g \in Pick(Grammars)
         /\ inp \in Inputs
